@@ -51,7 +51,7 @@ def unit_cases(r, n, oc, reqs, pend):
 def lost_lines(path, entries):
     out = []
     for k, body in entries:
-        out += [path + "\n", k + "\n"] + [b + "\n" for b in body] + [k + "\n", "-" * 45 + "\n"]
+        out += [os.path.abspath(path) + "\n", k + "\n"] + [b + "\n" for b in body] + [k + "\n", "-" * 45 + "\n"]
     return out
 
 
